@@ -214,11 +214,18 @@ Fixpoint value_eqb (a b : value) {struct a} : bool :=
   end.
 
 (* ------------------------------------------------------------------ schema construction *)
-(* _is_optional_type: one level of  X | None *)
-Definition is_opt (t : ty) : ty * bool := match t with TOpt t' => (t', true) | _ => (t, false) end.
+(* _is_optional_type: one level of  X | None, also when the marker sits inside an Annotated wrapper
+   (shape of the source since e0af9e7; regenerated flag gen_opt_through_ann, tie/T_Values.v) *)
+Fixpoint is_opt (t : ty) : ty * bool :=
+  match t with
+  | TOpt t' => (t', true)
+  | TAnn a =>                      (* Annotated[X | None, m]  is reported as  (Annotated[X, m], True) *)
+      let '(inner, nullable) := is_opt a in
+      if nullable then (TAnn inner, true) else (t, false)
+  | _ => (t, false)
+  end.
 (* _unwrap_annotated: Annotated[T, ...] -> T (typing flattens nested Annotated, one level is all there is).
-   Note the order everywhere below: Optional is stripped FIRST, Annotated SECOND, so  Annotated[X, m] | None  is
-   handled and  Annotated[X | None, m]  is not seen as optional. *)
+   Note the order everywhere below: Optional is stripped FIRST (by is_opt, which re-wraps), Annotated SECOND. *)
 Definition unwrap_ann (t : ty) : ty := match t with TAnn t' => t' | _ => t end.
 
 (* _infer_arrow_type, in its branch order: Optional stripped (at every depth), Enum -> dictionary,
@@ -525,9 +532,8 @@ Definition supported_inner (t : ty) : bool :=
 (* the annotations of the property: scalars at their Arrow widths, str, bytes, bool, enums, nested
    dataclasses, temporal types, Optional of any of these, lists / maps / frozensets of scalars
    (here: of any wire_plain type, i.e. also nested lists and Optional elements),
-   in every spelling the framework treats alike:  X,  X | None / Optional[X],  Annotated[X, m],
-   Annotated[X, m] | None / Optional[Annotated[X, m]].   Annotated[X | None, m]  (optional marker inside the
-   Annotated wrapper) is NOT among them: see refuted/R_C02.v *)
+   in every spelling:  X,  X | None / Optional[X],  Annotated[X, m],  Annotated[X, m] | None /
+   Optional[Annotated[X, m]],  Annotated[X | None, m] *)
 Definition supported_plainly (t : ty) : bool :=            (* the spellings without Annotated at the top *)
   match t with
   | TOpt t' => supported_inner t'
@@ -541,6 +547,7 @@ Definition supported_core (t : ty) : bool :=
 Definition supported (t : ty) : bool :=
   match t with
   | TOpt t' => supported_core t'
+  | TAnn (TOpt t') => supported_inner t'
   | _ => supported_core t
   end.
 
